@@ -1092,13 +1092,18 @@ func serverWord(w []int, kind string) (cwScenario, bool) {
 			if returned {
 				return cwScenario{}, false
 			}
-			s = append(s, hop(0, HOp{Op: "setheader", B: 3}), hop(0, HOp{Op: "sendheader", B: 4}))
+			// (metadata classes a stricter library would refuse, at a third of the positions)
+			hb := int64(4)
+			if (i+2*len(w))%3 == 0 {
+				hb = mdClasses[(i+len(w))%len(mdClasses)]
+			}
+			s = append(s, hop(0, HOp{Op: "setheader", B: 3}), hop(0, HOp{Op: "sendheader", B: hb}))
 		case "h0":
 			if returned {
 				return cwScenario{}, false
 			}
 			returned = true
-			s = append(s, hop(0, HOp{Op: "settrailer", B: 5}), hop(0, HOp{Op: "return"}))
+			s = append(s, hop(0, HOp{Op: "settrailer", B: mdClasses[(i+len(w))%len(mdClasses)]}), hop(0, HOp{Op: "return"}))
 		case "he":
 			if returned {
 				return cwScenario{}, false
@@ -1167,6 +1172,67 @@ func c06ReturnWindow() []cwScenario {
 						"hold:" + hold, fmt.Sprintf("late:%d", late), fmt.Sprintf("exchanged:%d", ex)}})
 				}
 			}
+		}
+	}
+	return out
+}
+
+// metadata the handler hands to SetHeader / SendHeader / SetTrailer in the classes a stricter library refuses (non-ASCII
+// UTF-8, control characters, upper-case key, empty key, illegal key characters, DEL, empty value): whatever
+// the server makes of them, the stream still ends with its trailer envelope
+func c06MetadataClasses() []cwScenario {
+	var out []cwScenario
+	for ki, kind := range []string{"Bidi", "CStream", "SStream"} {
+		m := "/verif.Echo/" + kind
+		for _, cl := range mdClasses[1:] {
+			for _, where := range []string{"settrailer", "setheader", "sendheader", "setheader+settrailer"} {
+				for ret := 0; ret < 2; ret++ {
+					s := []Step{{Op: "cli", M: m, Env: &EnvSpec{Call: 0, Hdr: "ok:0", Trl: "none"}},
+						{Op: "cli", M: m, Env: bodyEnv(0, 10)}, hop(0, HOp{Op: "recv"})}
+					for _, w := range strings.Split(where, "+") {
+						s = append(s, hop(0, HOp{Op: w, B: cl}))
+					}
+					if kind != "CStream" {
+						s = append(s, hop(0, HOp{Op: "send", B: 20}))
+					}
+					s = append(s, hop(0, HOp{Op: "return", Code: 5 * ret, Msg: 7}),
+						Step{Op: "cli", M: "/verif.Echo/Unary", Env: &EnvSpec{Call: 1, Hdr: "ok:0", Body: i64(77), Trl: "none"}})
+					_ = ki
+					out = append(out, cwScenario{Mode: "server", Steps: s, Tags: []string{"c06", "family:metadata-classes", "kind:" + kind,
+						fmt.Sprintf("class:%d", cl), "where:" + where, fmt.Sprintf("ret:%d", ret)}})
+				}
+			}
+		}
+	}
+	return out
+}
+
+// unary calls with a deadline (GRPC-Timeout) whose method is still running when it expires: one that ends on its context
+// and one that ignores it and answers later; the connection stays up, more traffic follows: every unary request whose
+// method has returned has exactly one response (spec_c06 reason 7). Scripted client and end to end.
+func c06UnaryDeadline() []cwScenario {
+	var out []cwScenario
+	for _, deaf := range []bool{false, true} {
+		for _, late := range []bool{false, true} { // the method returns before (late = false: released first) or after the deadline
+			s := []Step{{Op: "cli", M: "/verif.Echo/Unary", Env: &EnvSpec{Call: 0, Hdr: "ok:0", Body: i64(95), Trl: "none"}, D: 500, Gate: true, Deaf: deaf}}
+			if late {
+				s = append(s, Step{Op: "tick", D: 500}, Step{Op: "hu", B: 95})
+			} else {
+				s = append(s, Step{Op: "hu", B: 95}, Step{Op: "tick", D: 500})
+			}
+			s = append(s, Step{Op: "cli", M: "/verif.Echo/Unary", Env: &EnvSpec{Call: 1, Hdr: "ok:0", Body: i64(77), Trl: "none"}},
+				Step{Op: "cli", M: "/verif.Echo/Unary", Env: &EnvSpec{Call: 2, Hdr: "ok:0", Body: i64(78), Trl: "none"}, D: 300}, Step{Op: "tick", D: 300})
+			out = append(out, cwScenario{Mode: "server", Steps: s, Tags: []string{"c06", "family:unary-deadline", fmt.Sprintf("deaf:%v", deaf), fmt.Sprintf("returns-after-deadline:%v", late)}})
+			// end to end: the real client's call carries the deadline
+			e := []Step{{Op: "unary", B: 95, D: 500, Gate: true, Deaf: deaf}, {Op: "c2s"}}
+			if late {
+				e = append(e, Step{Op: "tick", D: 500}, Step{Op: "hu", B: 95})
+			} else {
+				e = append(e, Step{Op: "hu", B: 95}, Step{Op: "tick", D: 500})
+			}
+			e = append(e, Step{Op: "drain"})
+			e = append(e, probeSteps(false)...)
+			out = append(out, cwScenario{Mode: "e2e", Steps: e, Tags: []string{"c06", "family:unary-deadline", fmt.Sprintf("deaf:%v", deaf), fmt.Sprintf("returns-after-deadline:%v", late)}})
 		}
 	}
 	return out
